@@ -810,6 +810,18 @@ func genOmniFresh(r *rand.Rand, i int) J {
 		g.budget = 20
 		prog = g.seq(3, 6)
 	}
+	// now and then one statement stands in the program twice (the very same text at two places, possibly separated by
+	// statements that change what it means): each occurrence is its own
+	if r.Intn(5) == 0 && len(prog) > 1 && !g.trims {
+		src := r.Intn(len(prog))
+		if t := jstr(jobj(prog[src]), "t"); t != "text" && t != "trimL" && t != "trimR" && t != "break" && t != "continue" {
+			var cp any
+			b, _ := json.Marshal(prog[src])
+			json.Unmarshal(b, &cp)
+			at := r.Intn(len(prog) + 1)
+			prog = append(prog[:at], append([]any{J{"t": "text", "s": bs("\n")}, cp}, prog[at:]...)...)
+		}
+	}
 	padTags(r, prog)
 	c := J{"kind": "render", "prog": prog, "env": env, "repeat": 2 + r.Intn(2)}
 	if g.hasInc {
